@@ -152,7 +152,7 @@ fn bound(f: &str) -> f64 {
         ("libm", "recip_sqrt") => 4.0,
         ("libm", _) => 4.0,
         // fast approximations: absolute error for sin/cos/asin/acos/atan2, relative for the others
-        ("mm", "sin") | ("mm", "cos") => 2e-3,
+        ("mm", "sin") | ("mm", "cos") | ("mm", "sin_cos.0") | ("mm", "sin_cos.1") => 2e-3,
         ("mm", "tan") => 2e-2,
         ("mm", "sqrt") => 3e-3,
         ("mm", "recip_sqrt") | ("none", "recip_sqrt") => 4e-3,
@@ -180,7 +180,7 @@ fn err(f: &str, got: f32, want: f64) -> (f64, &'static str) {
     match CFG {
         "std" | "libm" => (((got as f64 - want).abs()) / ulp_of(w32), "ulp"),
         _ => match f {
-            "sin" | "cos" | "asin" | "acos" | "atan2" => ((got as f64 - want).abs(), "abs"),
+            "sin" | "cos" | "sin_cos.0" | "sin_cos.1" | "asin" | "acos" | "atan2" => ((got as f64 - want).abs(), "abs"),
             _ => ((got as f64 - want).abs() / want.abs().max(1e-30), "rel"),
         },
     }
@@ -369,6 +369,17 @@ fn approx_sweeps(o: &mut Out, thorough: bool, seed: u64) {
         let x = 10f64.powf(-30.0 + 60.0 * i as f64 / n as f64) as f32;
         check_approx(o, "sqrt", &[x.to_bits()], catch(|| fp::sqrt(x)), (x as f64).sqrt());
     }
+    // ...and the whole positive range by bit pattern (subnormals to f32::MAX)
+    let step = if thorough { 251 } else { 4099 };
+    let mut b = 1u32;
+    while b <= f32::MAX.to_bits() {
+        let x = f32::from_bits(b);
+        if x >= sqrt_domain_lo() {
+            check_approx(o, "sqrt", &[b], catch(|| fp::sqrt(x)), (x as f64).sqrt());
+            o.count(if x < f32::MIN_POSITIVE { "sqrt:subnormal input" } else if x > 1e30 { "sqrt:input > 1e30" } else if x < 1e-30 { "sqrt:input < 1e-30" } else { "sqrt:bit-sweep other" }, 1);
+        }
+        b += step;
+    }
     for x in [0.0f32, 1.0, 4.0, 9.0, 16.0, 2.0, 0.25] {
         if CFG != "mm" || x != 0.0 {
             check_approx(o, "sqrt", &[x.to_bits()], catch(|| fp::sqrt(x)), (x as f64).sqrt());
@@ -390,6 +401,26 @@ fn approx_sweeps(o: &mut Out, thorough: bool, seed: u64) {
             let x = nudge((k as f64 * std::f64::consts::FRAC_PI_2) as f32, d);
             trig(o, x);
         }
+    }
+    // large arguments (many revolutions), log-uniform up to the backend's documented domain
+    let top = trig_domain().log10();
+    for _ in 0..n / 8 {
+        let m = 10f64.powf(2.0 + unit(&mut s) * (top - 2.0));
+        let x = (if unit(&mut s) < 0.5 { -m } else { m }) as f32;
+        if (x.abs() as f64) <= trig_domain() {
+            trig(o, x);
+            sin_cos_pair(o, x);
+            o.count("trig:|x| > 100", 1);
+        }
+    }
+    // Angle::sin_cos (what rotations and polar/spherical conversions are built on) against the same bounds
+    for i in 0..=n / 8 {
+        let x = (-four_pi + 2.0 * four_pi * i as f64 / (n / 8) as f64) as f32;
+        sin_cos_pair(o, x);
+    }
+    for _ in 0..n / 8 {
+        let x = ((unit(&mut s) * 2.0 - 1.0) * 100.0) as f32;
+        sin_cos_pair(o, x);
     }
     // asin, acos on [-1, 1] including the ends +- ulp (inside)
     let n = if thorough { 4_000_000 } else { 200_000 };
@@ -463,6 +494,45 @@ fn trig(o: &mut Out, x: f32) {
     }
 }
 
+/// `Angle::sin_cos` must be as good as the backend's sin and cos (same bounds, reported under their names)
+#[cfg(any(feature = "std", feature = "libm", feature = "mm"))]
+fn sin_cos_pair(o: &mut Out, x: f32) {
+    use re::math::rads;
+    let x6 = x as f64;
+    match catch(|| rads(x).sin_cos()) {
+        Err(p) => o.fail("panic", "sin_cos", &[x.to_bits()], p),
+        Ok((sn, cs)) => {
+            check_approx(o, "sin_cos.0", &[x.to_bits()], Ok(sn), x6.sin());
+            check_approx(o, "sin_cos.1", &[x.to_bits()], Ok(cs), x6.cos());
+        }
+    }
+}
+
+/// largest |x| for which sin/cos/tan are asserted (beyond it only the absence of panics would be; not generated)
+fn trig_domain() -> f64 {
+    if let Some(v) = std::env::var("FPPROBE_TRIG_DOMAIN").ok().and_then(|s| s.parse().ok()) {
+        return v;
+    }
+    match CFG {
+        // micromath reduces the argument in f32: its error grows with |x| (2e-3 is reached near 8e3)
+        "mm" => 1e3,
+        _ => 1e30,
+    }
+}
+
+/// smallest positive input for which sqrt / recip_sqrt are asserted
+fn sqrt_domain_lo() -> f32 {
+    if std::env::var_os("FPPROBE_FULL_SQRT_DOMAIN").is_some() {
+        return 0.0;
+    }
+    match CFG {
+        // the bit-trick approximations (micromath's, and the built-in fallback's fast inverse square root) read the
+        // exponent field, which a subnormal does not have: their domain is the normal floats (DESIGN D-g)
+        "mm" | "none" => f32::MIN_POSITIVE,
+        _ => 0.0,
+    }
+}
+
 #[cfg(any(feature = "std", feature = "libm", feature = "mm"))]
 fn inv_trig(o: &mut Out, x: f32) {
     check_approx(o, "asin", &[x.to_bits()], catch(|| fp::asin(x)), (x as f64).asin());
@@ -479,6 +549,17 @@ fn recip_sqrt_sweep(o: &mut Out, thorough: bool) {
     for i in 0..=n {
         let x = 10f64.powf(-30.0 + 60.0 * i as f64 / n as f64) as f32;
         check_approx(o, "recip_sqrt", &[x.to_bits()], catch(|| fp::recip_sqrt(x)), 1.0 / (x as f64).sqrt());
+    }
+    // the whole positive range by bit pattern (subnormals to f32::MAX)
+    let step = if thorough { 251 } else { 4099 };
+    let mut b = 1u32;
+    while b <= f32::MAX.to_bits() {
+        let x = f32::from_bits(b);
+        if x >= sqrt_domain_lo() {
+            check_approx(o, "recip_sqrt", &[b], catch(|| fp::recip_sqrt(x)), 1.0 / (x as f64).sqrt());
+            o.count(if x < f32::MIN_POSITIVE { "recip_sqrt:subnormal input" } else if x > 1e30 { "recip_sqrt:input > 1e30" } else if x < 1e-30 { "recip_sqrt:input < 1e-30" } else { "recip_sqrt:bit-sweep other" }, 1);
+        }
+        b += step;
     }
 }
 #[cfg(feature = "std")]
@@ -728,7 +809,7 @@ fn normalize(o: &mut Out, seed: u64) {
         _ => 4e-3,
     };
     for i in 0..200_000 {
-        let mag = 10f64.powf(unit(&mut s) * 12.0 - 6.0);
+        let mag = if i % 4 == 3 { 10f64.powf(unit(&mut s) * 35.0 - 17.0) } else { 10f64.powf(unit(&mut s) * 12.0 - 6.0) };
         let mut c = [0.0f32; 3];
         for k in 0..3 {
             c[k] = ((unit(&mut s) * 2.0 - 1.0) * mag) as f32;
@@ -796,6 +877,8 @@ fn replay(f: &str, bits: &[u32]) {
         "sqrt" => check_approx(&mut o, "sqrt", bits, catch(|| fp::sqrt(x)), (x as f64).sqrt()),
         #[cfg(any(feature = "std", feature = "libm", feature = "mm"))]
         "sin" | "cos" | "tan" => trig(&mut o, x),
+        #[cfg(any(feature = "std", feature = "libm", feature = "mm"))]
+        "sin_cos" | "sin_cos.0" | "sin_cos.1" => sin_cos_pair(&mut o, x),
         #[cfg(any(feature = "std", feature = "libm", feature = "mm"))]
         "asin" | "acos" => inv_trig(&mut o, x),
         #[cfg(any(feature = "std", feature = "libm", feature = "mm"))]
